@@ -142,6 +142,15 @@ class SLeaf:
 
 
 @dataclass
+class SNil:
+    class Meta:
+        nillable = True
+
+    v: Optional[int] = field(default=None, metadata={"type": "Element"})
+    a: Optional[str] = field(default=None, metadata={"type": "Attribute"})
+
+
+@dataclass
 class SOther:
     w: Optional[str] = field(default=None, metadata={"type": "Element"})
     v: Optional[int] = field(default=None, metadata={"type": "Element"})
